@@ -21,6 +21,26 @@ def compare(op, impl, model):
     if impl == model:
         return True
     kind = op.split(" ", 1)[0]
+    if kind in ("sqchord", "cylchord"):
+        # end points of a ray: the harness computes in double (slab clipping), the model exactly with the code's formula.
+        # Forward error of the <= 6 double operations: 8 2^-53 (F + |s|) / min(|cos|,|sin|) -- 1e-9 of that is ample.
+        # The verdict some/none may differ only if the chord is within that of the cut-off 1.E-3 voxel_size.x.
+        try:
+            par = [float.fromhex(t) for t in op.split()[1:]]
+            a, b = impl.split(), model.split()
+            if len(a) != len(b) or len(a) < 1:
+                return False
+            div = 1.0 if kind == "cylchord" else max(min(abs(par[2]), abs(par[3])), 1e-3)
+            scale = (par[0] + abs(par[1])) * (par[0] + abs(par[1]) if kind == "cylchord" else 1.0 / div)
+            tol = 1e-9 * scale
+            vals = [(float.fromhex(x), _num(t)) for x, t in zip(a[1:], b[1:])]
+            if not all(abs(f - v) <= tol for f, v in vals):
+                return False
+            if a[0] == b[0]:
+                return True
+            return kind == "sqchord" and len(vals) == 2 and abs(vals[0][1] - (vals[1][1] - 1e-3 * par[4])) <= 2 * tol
+        except (ValueError, ZeroDivisionError, IndexError):
+            return False
     if kind not in ("fwd", "fwd2", "fwdg", "bout", "binto", "rfwd", "rbck"):
         return False
     a, b = impl.split(), model.split()
@@ -122,14 +142,58 @@ def main(tier, replay):
         "0..max a set of basic views (0, 1, V/4, V/2, 2 random) x {full range, random axial+tangential sub-range (5-argument overload), "
         "axial sub-range} + the 02c0a3d12 class + pre-filled viewgrams, with tolerance 1e-4 max(viewgram max, 0.05 max(A|x|)); bins whose "
         "LOR end point lies within 2e-3 voxel of a voxel boundary (or that only touch a corner of the square FOV) not compared (count in "
-        "harness_counts). distinct = distinct op lines.",
+        "harness_counts). "
+        "FIELD OF VIEW x SYMMETRIES x RAYS (round 4): on 3 small fixed-type worlds per run (thorough 24: cylindrical 16 detectors / 8 views, "
+        "12 detectors / 6 views, and TOF 12 detectors with 5 timing positions; 2 rings, span 1, image 6-9 voxels across covering 70-100% of "
+        "the field of view) the FULL cross product {restrict_to_cylindrical_FOV on, off (square)} x {all 32 combinations of "
+        "do_symmetry_90degrees_min_phi / 180degrees_min_phi / swap_segment / swap_s / shift_z, so also every view symmetry off: rows of "
+        "the views of 45..180 degrees computed directly, cos(phi) < 0} x {num_tangential_LORs 1, 2, 3} x {use_actual_detector_boundaries "
+        "off, on} = 384 matrices per world, ALL views and bins: (1) GEOMETRY ORACLE, independent of the on-the-fly projector and of any "
+        "other matrix: the harness' own 2D tracer cuts the LOR X = s cos(phi) + a sin(phi), Y = s sin(phi) - a cos(phi) of every ray "
+        "(s, phi from ProjDataInfo, or from the detector pair when the detector boundaries are in use) at the cylinder / square of "
+        "radius min(max_index, -min_index) * voxel_size and at the voxel column boundaries; every row must be NON-EMPTY when the chord "
+        "exceeds 0.1 voxel, its sum must lie between chord / (cos(theta) voxel_size.x) and that plus the rest of the two end voxels "
+        "(RayTraceVoxelsOnCartesianGrid traces the voxels containing the end points from face to face by design; in a direct plane the "
+        "upper value exactly), and the sums over z per voxel column (y,x) must equal the 2D lengths (end columns: part of the chord .. "
+        "full traversal), all within 0.5% + 0.005; TOF: sum over the timing positions, bounds multiplied with the smallest / largest "
+        "coverage 1/2 sum_k[erf((high_k - d)/(sqrt2 sigma)) - erf((low_k - d)/(sqrt2 sigma))] over the planes of the row (std::erf); rays "
+        "running along a voxel boundary or ending on one: columns not compared, sum with 1.5 voxels of room (count in harness_counts). "
+        "The same oracle runs on the probe rows and the no-symmetry rows of EVERY ray-tracing setting of the random worlds above "
+        "(blocks with the 5-voxel margin, TOF, span 3, view mashing, arc-corrected, anisotropic voxels, offset grids). "
+        "(2) every row = the row of the same matrix without any symmetry within 2% (L1) + 0.02 (an oracle now, not a count). "
+        "(3) 1 ray, no detector boundaries, non-TOF: forward projection through the matrix = sum over its rows (4(n+1)2^-24 M) and = "
+        "the on-the-fly ForwardProjectorByBinUsingRayTracing with the same field of view, whole data, two images, for EACH of the 32 "
+        "symmetry settings x both fields of view (tolerance 1e-4 max(viewgram max, 0.05 max A|x|) as above). "
+        "(4) 2 (thorough 4) members of the cross product per world - the first always square field of view with both view "
+        "symmetries off - go through the complete differential and oracles of a matrix setting (rows to the model, whole data / subsets "
+        "/ groups / sub-ranges / smaller ProjData / processors, both cache modes). "
+        "(5) CORRESPONDENCE for the end points: every ray of (1) is sent to the model (ops sqchord / cylchord with fov, s, cos, sin, "
+        "voxel size as hex doubles); lean squareChord / cylChordSq transcribe ray_trace_one_lor's min_a / max_a "
+        "(ProjMatrixByBinUsingRayTracing.cxx:478-526: sign(), the 1.E-3 branches, the 1.E-3 voxel cut-off) exactly in Rat, the harness "
+        "answers with its own slab clipping in double; accepted iff the end points agree within 1e-9 (F+|s|)/min(|cos|,|sin|) and the "
+        "some/none verdicts agree (unless the chord is within that of the cut-off). Theorems C04_square_fov_* / "
+        "C04_cylindrical_fov_chord_exact: those end points bound exactly the part of the LOR inside the field of view for every sign of "
+        "cos(phi), sin(phi). "
+        "distinct = distinct op lines.",
         extra=dict(harness_counts=counts, harness_notes=notes[:8]))
     chk.assumptions += [
         "float rounding is bounded, not modelled: comparisons use the forward error bound 4(n+1)2^-24 sum|terms|",
         "matrix rows, symmetry tables and the storage layouts are data for the model (rows are C03's subject); "
         "the on-the-fly Siddon projector is compared on the implementation only (not modelled)",
-        "on-the-fly comparison only where it sets up: cylindrical, non-TOF, even number of views, no view mashing (others counted as skipped / refused)",
-        "rows computed with symmetries vs without symmetries are only counted (C03's subject; boundary cases differ legitimately)",
+        "on-the-fly comparison only where it sets up: cylindrical, non-TOF, even number of views, no view mashing (others counted as skipped / refused); "
+        "it has one ray and no detector-boundary option, so num_tangential_LORs 2, 3, use_actual_detector_boundaries and TOF matrices are "
+        "checked against the geometry oracle and the no-symmetry rows only",
+        "rows computed with symmetries vs without symmetries: only counted at 1e-3 in the random worlds (C03's subject), an oracle at 2% "
+        "L1 in the cross-product worlds",
+        "geometry oracle: the float rounding of ray_trace_one_lor / RayTraceVoxelsOnCartesianGrid is inside the 0.5% + 0.005 tolerance, "
+        "not modelled; the z distribution of a row (rays per axial position, overlap weights of direct planes, TOF kernel per plane) is "
+        "not checked by it (sums over z only; TOF by coverage bounds); the tracing of the two end voxels from face to face is taken as "
+        "designed (so the row sum is only bounded, chord <= sum <= chord + rest of the end voxels, not `= chord within a few %`, which the "
+        "small images used here would violate by up to 30%); the s positions of the num_tangential_LORs rays and the detector-pair "
+        "formula for phi, s are taken from the code's documentation (not independent); cross-product worlds have default index ranges, "
+        "square voxels, 2 planes per ring, span 1, no mashing",
+        "sqchord / cylchord: the implementation side of these operations is the harness' geometric computation (validated against "
+        "the real rows by the geometry oracle), not a direct call of the static ray_trace_one_lor",
         "OpenMP off; data processors are the harness' own exact-arithmetic ones (what a STIR filter computes is C19's subject); "
         "smaller ProjData keep the views and TOF bins of the set-up geometry and are trimmed symmetrically in +-segment "
         "(ProjDataInfo::operator>= admits nothing else for views/TOF; asymmetric segment ranges are not exercised)",
